@@ -2734,6 +2734,105 @@ func (r *vpRun) overlappingClose(rng *rand.Rand) {
 	r.emit("p verdict", "ok")
 }
 
+// siblingRemoved: a multi-output registration (two return values, or two As aliases) whose constructor
+// has one dependency; one of its identities is removed again before Build. Whatever is wrong with the
+// constructor's dependency (scoped under a long-lived consumer, not registered) is still wrong for the
+// surviving identity, and nothing is wrong if the dependency is fine. Monitors only (C07/C08/C05).
+type vsDep struct{ id int }
+type vsA struct{ d *vsDep }
+type vsB struct{ d *vsDep }
+type vsIA interface{ ia() }
+type vsIB interface{ ib() }
+
+func (*vsA) ia() {}
+func (*vsA) ib() {}
+
+func (r *vpRun) siblingRemoved(rng *rand.Rand) {
+	w := r.newWorld(rng)
+	lifes := []Lifetime{Singleton, Scoped, Transient}
+	lifeDep, lifeM := lifes[rng.Intn(3)], lifes[rng.Intn(3)]
+	regDep := rng.Intn(4) != 0
+	aliases := rng.Intn(2) == 0
+	removeFirst := rng.Intn(3) != 0
+	c := w.coll
+	var err error
+	if regDep {
+		err = c.addService(func() *vsDep { return &vsDep{1} }, lifeDep)
+	}
+	if err == nil {
+		if aliases {
+			err = c.addService(func(d *vsDep) *vsA { return &vsA{d} }, lifeM, As[vsIA](), As[vsIB]())
+		} else {
+			err = c.addService(func(d *vsDep) (*vsA, *vsB) { return &vsA{d}, &vsB{d} }, lifeM)
+		}
+	}
+	if err != nil {
+		w.fail("C17", "sibling-removed scenario: a valid registration was rejected: %v", err)
+		r.emit("p verdict", "ok")
+		return
+	}
+	switch {
+	case aliases && removeFirst:
+		c.Remove(reflect.TypeOf((*vsIA)(nil)).Elem())
+	case aliases:
+		c.Remove(reflect.TypeOf((*vsIB)(nil)).Elem())
+	case removeFirst:
+		c.Remove(reflect.TypeOf(&vsA{}))
+	default:
+		c.Remove(reflect.TypeOf(&vsB{}))
+	}
+	want := "ok"
+	switch {
+	case regDep && lifeDep == Scoped && lifeM != Scoped:
+		want = "lifetime"
+	case !regDep:
+		want = "missing"
+	}
+	r.stats["sibling_removed"]++
+	var prov Provider
+	if guard(w, "Build", func() { prov, err = c.Build() }) {
+		r.emit("p verdict", "ok")
+		return
+	}
+	got := "ok"
+	var le *LifetimeConflictError
+	var be *BuildError
+	switch {
+	case err == nil:
+	case errors.As(err, &le):
+		got = "lifetime"
+	case errors.As(err, &be) && be.Phase == "validation" && errors.Is(err, ErrServiceNotFound):
+		got = "missing"
+	default:
+		got = "other: " + err.Error()
+	}
+	if got != want {
+		w.fail("C07,C08", "Build verdict %q after one identity (first=%v) of a %v two-identity registration (aliases=%v) was removed; its constructor depends on *Dep (%v, registered=%v): the registered dependency relation says %q",
+			got, removeFirst, lifeM, aliases, lifeDep, regDep, want)
+	}
+	if err == nil {
+		if sc, e := prov.CreateScope(nil); e == nil {
+			var e2 error
+			switch {
+			case aliases && removeFirst:
+				_, e2 = Resolve[vsIB](sc)
+			case aliases:
+				_, e2 = Resolve[vsIA](sc)
+			case removeFirst:
+				_, e2 = Resolve[*vsB](sc)
+			default:
+				_, e2 = Resolve[*vsA](sc)
+			}
+			if e2 != nil {
+				w.fail("C08,C17", "the surviving identity of the registration does not resolve after its sibling was removed: %v", e2)
+			}
+			sc.Close()
+		}
+		prov.Close()
+	}
+	r.emit("p verdict", "ok")
+}
+
 // oddShapes: dependency shapes the generic generator cannot build with reflect.StructOf / MakeFunc — a
 // parameter object with an EMBEDDED dependency field, and a plain (ungrouped) dependency of slice type.
 // Monitors only (a test of these shapes, not a proof): Build's verdict against the reference verdict of the
@@ -2891,6 +2990,10 @@ func TestVerifCore(t *testing.T) {
 		}
 		if it%50 == 43 {
 			r.overlappingClose(rng)
+			continue
+		}
+		if it%50 == 47 {
+			r.siblingRemoved(rng)
 			continue
 		}
 		r.scenario(rng, o)
